@@ -153,11 +153,12 @@ def gen_stream(rng, n_sent):
             s += "^(" + rng.choice(["1/2", "-1/2", "3/2", "1/3", "2/4", "1/0", "01/02"]) + ")"
         if rng.random() < 0.3:
             s = rng.choice(["a/(", "1/(", "("]) + s + ")"
+        s = U.tame(s)
         cases.append(("library-notation", s))
         cases.append(("corruption", U.corrupt(rng, s)))
     # junk
     for _ in range(n_sent // 10):
-        cases.append(("junk", "".join(rng.choice(U.CORRUPT) for _ in range(rng.randrange(0, 9)))))
+        cases.append(("junk", U.tame("".join(rng.choice(U.CORRUPT) for _ in range(rng.randrange(0, 9))))))
     return cases
 
 
@@ -274,12 +275,99 @@ def shrink_string(s, fails):
     return cur
 
 
+def _same(a, b):
+    """two parse outcomes (None or list of (symbol, exponent)) agree"""
+    if a is None or b is None or a == "weird" or b == "weird":
+        return a is None and b is None
+    return [(k, Fraction(v)) for k, v in a] == [(k, Fraction(v)) for k, v in b]
+
+
+def _units_of(obj):
+    out = []
+    for k, v in obj._unit.items():
+        if not isinstance(k, str) or isinstance(v, bool) or not isinstance(v, (int, float)):
+            return "weird"
+        out.append((k, v))
+    return out
+
+
+def judge_entry_points(s):
+    """every public way of handing a unit string to the library must treat [s] like parse_unit_string does (same
+    acceptance, same exponents), and a rejected string must leave the object / the table of definitions as it was"""
+    import qexpy as q
+    import qexpy.utils.units as UU
+    if not s:
+        return None
+    ref = U.impl_parse(s)
+    old = [("kg", 1), ("zq", 2)]
+    results = []
+
+    def attempt(label, make, rollback_probe=None):
+        try:
+            got = make()
+        except Exception:  # noqa
+            got = None
+            if rollback_probe is not None:
+                left = rollback_probe()
+                if left is not None:
+                    results.append("{} rejected {!r} but left {}".format(label, s, left))
+        if not _same(ref, got):
+            results.append("{} {} {!r}{} while parse_unit_string {}".format(
+                label, "rejects" if got is None else "accepts", s,
+                "" if got is None else " as " + str(got), "rejects it" if ref is None else "gives " + str(ref)))
+
+    attempt("Measurement(unit=...)", lambda: _units_of(q.Measurement(1.0, 0.1, unit=s)))
+    m = q.Measurement(2.0, 0.2, unit="kg*zq^2")
+
+    def set_m():
+        m.unit = s
+        return _units_of(m)
+    attempt("the unit setter", set_m, lambda: None if _units_of(m) == old else "the unit {}".format(_units_of(m)))
+
+    def arr_ctor():
+        arr = q.MeasurementArray([1.0, 2.0], 0.5, unit=s)
+        us = [_units_of(x) for x in arr]
+        return us[0] if all(_same(us[0], u) for u in us) else "weird"
+    attempt("MeasurementArray(unit=...)", arr_ctor)
+    arr2 = q.MeasurementArray([1.0, 2.0, 3.0], 0.5, unit="kg*zq^2")
+
+    def arr_set():
+        arr2.unit = s
+        us = [_units_of(x) for x in arr2]
+        return us[0] if all(_same(us[0], u) for u in us) else "weird"
+    attempt("the unit setter of a MeasurementArray", arr_set,
+            lambda: None if all(_units_of(x) == old for x in arr2) else "elements with units {}".format([_units_of(x) for x in arr2]))
+
+    def xy_ctor():
+        d = q.XYDataSet([1.0, 2.0, 3.0], [2.0, 3.0, 4.0], xunit=s, yunit="kg")
+        return _units_of(d.xdata[0])
+    attempt("XYDataSet(xunit=...)", xy_ctor)
+    d2 = q.XYDataSet([1.0, 2.0, 3.0], [2.0, 3.0, 4.0], xunit="s", yunit="kg*zq^2")
+
+    def xy_set():
+        d2.yunit = s
+        return _units_of(d2.ydata[1])
+    attempt("the yunit setter of an XYDataSet", xy_set,
+            lambda: None if all(_units_of(x) == old for x in d2.ydata) else "y elements with units {}".format([_units_of(x) for x in d2.ydata]))
+
+    def define():
+        q.define_unit("Zq", s)
+        got = UU.UNIT_DEFINITIONS["Zq"]
+        return [(k, v) for k, v in got.items()]
+    try:
+        attempt("define_unit", define, lambda: "a definition of 'Zq'" if "Zq" in UU.UNIT_DEFINITIONS else None)
+    finally:
+        q.clear_unit_definitions()
+    return results[0] if results else None
+
+
 def judge_case(case):
     """one string, or a session {"session": [s1, ..., sn]}: the strings are offered to the parser one after the other in
     ONE fresh library state and the last one is judged (state the library keeps between calls thereby becomes part of
     the input: a string must be judged the same however often and after whatever it is offered)"""
-    core.fresh_impl()
-    U.clear_global_state()
+    core.fresh_impl()            # a fresh library state; deliberately NOT followed by any reset / clear call
+    if isinstance(case, dict) and "entry" in case:
+        return judge_entry_points(case["entry"])
     if isinstance(case, dict):
         sess = case["session"]
         for s in sess[:-1]:
@@ -302,7 +390,17 @@ def search(ctx, suspects, budget):
         if cls in seen_what and len(out) >= 2:
             return
         seen_what.add(cls)
-        out.append(Violation(ID, "string" if isinstance(case, str) else "session", case, why))
+        out.append(Violation(ID, "string" if isinstance(case, str) else ("entry" if "entry" in case else "session"), case, why))
+
+    def examine_entry(s):
+        """the other public entry points against parse_unit_string, from the running state and then from a fresh one"""
+        if judge_entry_points(s):
+            small = shrink_string(s, lambda x: judge_entry_points(x) is not None)
+            case = {"entry": small}
+            why = judge_case(case)
+            if not why:
+                case, why = {"entry": s}, judge_case({"entry": s})
+            add(case, why or (judge_entry_points(s) or "") + " (only after the cases of this run)")
 
     def report(s):
         """a failure seen in the running process is re-established from a fresh library state: the shrunk string alone,
@@ -353,6 +451,8 @@ def search(ctx, suspects, budget):
     # every string must be judged the same when it is offered again (a retry after the error message)
     for s in todo[:60]:
         examine(s)
+    for s in todo[:ctx.n(40, 400)]:
+        examine_entry(s)
     # exhaustive small scope: the oracle is total (sentence <-> must be accepted with the conventional meaning)
     max_len = 5 if (budget >= 20 or not ctx.quick) else 4
     done_len = -1
@@ -377,6 +477,9 @@ def search(ctx, suspects, budget):
         cands = [s, U.corrupt(rng, s), U.corrupt(rng, s), "1/" + s]
         for cand in cands + cands[1:3]:          # the corruptions are offered a second time
             examine(cand)
+        if n % ctx.n(8, 3) == 0:
+            for cand in cands[:3]:
+                examine_entry(cand)
     ctx.notes.append("oracle: all strings of length <= {} over the 11-character alphabet, {} random sentences with corruptions "
                      "(corruptions and corpus strings offered twice)".format(done_len, n))
     U.clear_global_state()
